@@ -75,6 +75,11 @@ def mask_shapes(maxn):
 BIT = lambda s: [[0], [1]]
 
 
+def one(pars, nargs=1):
+    """every argument holds exactly one element"""
+    return lambda maxn: [(tuple([1] * nargs), p) for p in pars]
+
+
 def table():
     return [
         ("algmap", [ANY], sized(1), always),
@@ -102,6 +107,23 @@ def table():
         ("optapply2", [ANY, ANY], opt_sized(2), rv_only),
         ("optseq", [ANY], mask_shapes, rv_only),
         ("optcat", [ANY], mask_shapes, rv_only),
+        # move_if / move_if_rvalue themselves (l: lvalue that must stay, i: lvalue the caller asked to move)
+        ("moveif", ["lcr"], one([[0]]), rv_only),
+        ("moveif", ["icr"], one([[1]]), lambda cats: cats[0] in "ir"),
+        ("moveifrv", ["lcr"], one([[0], [1]]), rv_only),
+        ("moveifrv", ["icr"], one([[2], [3]]), lambda cats: cats[0] in "ir"),
+        # either: one element, par = which alternative holds it
+        ("eithmap", [ANY], one(BIT(0)), rv_only),
+        ("eithmapfail", [ANY], one(BIT(0)), rv_only),
+        ("eithbind", [ANY], one([[a, b] for a in (0, 1) for b in (0, 1)]), rv_only),
+        ("eithmatch", [ANY], one(BIT(0)), always),
+        ("eithsuccopt", [ANY], one(BIT(0)), rv_only),
+        ("eithfailopt", [ANY], one(BIT(0)), rv_only),
+        ("eithfromopt", [ANY], opt_sized(1), rv_only),
+        ("eithjoin", [ANY], one([[0], [1], [2]]), rv_only),
+        ("eithapply2", [ANY, ANY], one([[a, b] for a in (0, 1) for b in (0, 1)], 2), rv_only),
+        ("eithseq", ["r"], sized(1, par=lambda s: masks(s[0], 1)), always),
+        ("eithfirst", [], lambda maxn: [((), list(m)) for ln in range(maxn + 1) for m in itertools.product([0, 1], repeat=ln)], always),
     ]
 
 
